@@ -235,8 +235,11 @@ def check(ctx):
              'CacheStore.__init__ does not end with the version check')
     # version hash covers the scanner sources
     vh = py.func('cachestore', '_get_versionhash')
-    t = P.src(vh)
-    r4.check("glob.glob(os.path.join(toplevel, '*.py'))" in t and 'os.path.dirname(giscanner.__file__)' in t and 'st_mtime' in t,
+    globs = [c for c in P.calls_in(vh) if P.call_name(c) == 'glob.glob' and "'*.py'" in P.src(c)]
+    pkg = [n for n in ast.walk(vh) if isinstance(n, ast.Attribute) and n.attr == '__file__' and P.src(n.value) == 'giscanner']
+    mt_ = [n for n in ast.walk(vh) if (isinstance(n, ast.Attribute) and n.attr in ('st_mtime', 'st_mtime_ns')) or
+           (isinstance(n, ast.Call) and P.call_name(n) in ('os.path.getmtime', 'os.path.getmtime_ns'))]
+    r4.check(bool(globs) and bool(pkg) and bool(mt_),
              'version hash covers giscanner/*.py', rel, vh.lineno, 'version hash no longer derived from the scanner sources')
 
     # --------------------------------------------------------------- R5 transparency at the call site
@@ -283,7 +286,7 @@ def cache_key_rule(ctx, rule):
     """the cache entry of a file is named by a digest of the file's full path, losslessly encoded: two different GIR files never share an entry
     (shared with C16: the output must not depend on what another run left in the cache)"""
     py = ctx.py
-    GF = gsa.summarise(ctx, 'cachestore', 'CacheStore._get_filename', inline_only=())
+    GF = gsa.summarise(ctx, 'cachestore', 'CacheStore._get_filename')
     fp = GF.P(1)
     hashed = []
     for g_, n in GF.returns:
